@@ -61,6 +61,15 @@ Definition feq (a b : fl) : bool :=            (* identity of values (NaN = NaN)
   | _, _ => false
   end.
 
+(* alpha * x for a rational alpha (the damping factor) *)
+Definition fscale (a : Q) (x : fl) : fl :=
+  match x with
+  | Fin q => Fin (a * q)
+  | NaN => NaN
+  | PInf => if Qle_bool a 0 then (if Qle_bool 0 a then NaN else NInf) else PInf
+  | NInf => if Qle_bool a 0 then (if Qle_bool 0 a then NaN else PInf) else NInf
+  end.
+
 (* np.max of a float64 array: NaN if any entry is NaN *)
 Definition nanmax2 (acc x : fl) : fl :=
   match acc, x with
@@ -155,6 +164,10 @@ Definition obs_of (nvars : nat) (v : vobs) : obs :=
 Definition newton_v (cfg : config) (vorc : state -> vobs) (conv0 : bool) (alpha0 : Q) : state :=
   newton cfg (fun st => obs_of (c_nvars cfg) (vorc st)) conv0 alpha0.
 
+(* the update lines of solve_hydraulics / solve_temperature:  pit[:, COL] -= x[...] * options["alpha"]
+   (x = what spsolve returned for these unknowns) *)
+Definition upd (alpha : Q) (old x : list fl) : list fl := map2 (fun o xi => fsub o (fscale alpha xi)) old x.
+
 (* value left in the pit for one variable after finalize_iteration *)
 Definition pit_after {V} (restored : bool) (v_new v_old : V) : V := if restored then v_old else v_new.
 
@@ -165,7 +178,8 @@ Open Scope string_scope.
 Record pairsrc := {
   ps_new_pit : string; ps_new_col : string; ps_new_rows : option string;   (* None = all rows `:` *)
   ps_old_pit : string; ps_old_col : string; ps_old_rows : option string;
-  ps_filter : option string          (* the entry of `filtered` at this position (None = None) *)
+  ps_filter : option string;         (* the entry of `filtered` at this position (None = None) *)
+  ps_reduce_mode : string            (* mode of the reduce_pit call that built the active pit the pair is read from *)
 }.
 
 Record stage_wiring := {
@@ -176,7 +190,9 @@ Record stage_wiring := {
   sw_pits : list string;
   sw_iter : string;
   sw_pairs : list pairsrc;           (* (new, old) pairs returned by the solve function, in order *)
-  sw_body : list string              (* essential statements of the stage function, in order *)
+  sw_body : list string;             (* essential statements of the stage function, in order *)
+  sw_final_reduce_mode : string      (* mode of the last reduce_pit before finalize_iteration runs: what
+                                        net["_active_pit"] is when a rejected step is restored *)
 }.
 
 Definition upper_ascii (c : ascii) : ascii :=
@@ -215,6 +231,10 @@ Fixpoint all4 (vars tols pits : list string) (pairs : list pairsrc) : bool :=
   | v :: vs, t :: ts, p :: ps, q :: qs => pair_ok v t p q && all4 vs ts ps qs
   | _, _, _, _ => false
   end.
+
+(* does a restored vector land in the active pit it was read from? *)
+Definition restore_in_own_pit (w : stage_wiring) (q : pairsrc) : bool :=
+  String.eqb (ps_reduce_mode q) (sw_final_reduce_mode w).
 
 Definition wiring_ok (w : stage_wiring) : bool :=
   nodup_str (sw_vars w) && negb (Nat.eqb (length (sw_vars w)) 0) &&
@@ -275,7 +295,11 @@ Inductive escape := NoEscape | EscNotConverged | EscOther.
 (* ri_escape: an exception leaves the stage from inside its newton_raphson call (raised by the solve
    function or by the driver): the loop only runs while net.converged is False; hydraulics / bidirectional
    catch it, drop _internal_data unless reuse_internal_data, and re-raise *)
-Record run_in := { ri_cfg : config; ri_orc : state -> obs; ri_rerun : bool; ri_escape : escape }.
+(* ri_post: an exception raised inside the stage AFTER its loop converged: by rerun_* (before the
+   internal-data pop) or by extract_results_active_pit (after it).  net.converged is True by then. *)
+Inductive post_escape := NoPost | PostRerun | PostExtract.
+Record run_in := { ri_cfg : config; ri_orc : state -> obs; ri_rerun : bool; ri_escape : escape;
+                   ri_post : post_escape }.
 
 Inductive stage_kind := KHyd | KHeat | KBid.
 
@@ -306,6 +330,8 @@ Fixpoint stage (k : stage_kind) (reuse heat_unsupplied : bool) (r : run_in) (mor
   let n2 := set_conv n1 (s_conv st) (s_alpha st) in
   if s_conv st then
     let n3 := match k with KHeat => n2 | _ => set_hyd_flag n2 end in
+    match k, ri_post r with
+    | KBid, _ | _, NoPost =>
     match k, ri_rerun r, more with
     | KBid, _, _ | _, false, _ | _, _, [] => (pop n3, Returned, [st])
     | _, true, r' :: more' =>
@@ -314,6 +340,9 @@ Fixpoint stage (k : stage_kind) (reuse heat_unsupplied : bool) (r : run_in) (mor
         | Returned => (pop n4, (if n_conv n4 then Returned else NotConverged), (sts ++ [st])%list)
         | _ => (n4, o, (sts ++ [st])%list)
         end
+    end
+    | _, PostRerun => (n3, OtherException, [st])
+    | _, PostExtract => (pop n3, OtherException, [st])
     end
   else (pop n2, NotConverged, [st])
   end.
